@@ -416,3 +416,30 @@ theorem setIndex_expand_left (dims : Shape) (items : List Ix) (pre w out' : Shap
   · rfl
 
 end TdVerif.C03
+
+namespace TdVerif.C03
+open TorchSpec Td
+
+/-- `td[idx] = TensorDict({nested: child})`: the batch handling of the child (`childBatch` against torch's shape), then the very
+    same `__setitem__` on the nested tensordict (to which `setitemColl_spec` applies with torch's shape followed by the extra
+    batch dims, by `leaf_commutes`) -/
+theorem setitemCollNested_spec (td : TD) (items : List Ix) (R : IndexResult) (vb cbx : Shape) (j : Nat) (nd : Nested)
+    (entries : List VEntry) (hn : noEll items = true) (h : index td.bs items = .ok R) (hj : td.nested[j]? = some nd) :
+    setitemCollNested td (.tuple items) vb j cbx entries =
+      (match childBatch vb R.shape cbx entries with
+       | .error e => .error e
+       | .ok (k, cb) =>
+         (setitemColl { bs := td.bs ++ nd.extra, names := none, leaves := nd.leaves, nested := [] } (.tuple items) false cb
+            (childEntries k vb R.shape entries)).map (dropWritten k)) := by
+  have hany : items.any (· = Ix.ell) = false := by
+    simp only [noEll, List.all_eq_true, bne_iff_ne, ne_eq] at hn
+    simpa using hn
+  obtain ⟨hs, P, hw, hf⟩ := index_inv h
+  have hc : checkIndexNdim (.tuple items) td.bs.length = .ok () := (checkIndexNdim_ok_iff items _).mpr hs
+  have hb := getitemBatchSize_tuple td.bs items _ P R hn hw hf
+  simp only [setitemCollNested, hany, Bool.false_eq_true, if_false, bind, Except.bind, hc, hb, TD.nestedAsTd, hj, Option.map_some]
+  cases hcb : childBatch vb R.shape cbx entries with
+  | error e => rfl
+  | ok p => rfl
+
+end TdVerif.C03
